@@ -42,6 +42,8 @@ K4_PROP = 2 | 4 | 8 | 16 | 32 | 64
 K5_FLAGS = {1: "prop:pattern-boundary-on-the-line-after-curves-not-cut-at-its-arc-length", 2: "prop:line-after-curves-cut-where-no-boundary-falls",
             4: "tie:go-length-outside-enclosure", 32: "prop:panic"}
 K5_PROP = 1 | 2 | 32
+K6_FLAGS = {1: "prop:arc-inside-the-last-dash-not-returned-exactly-once", 2: "prop:arc-inside-the-last-dash-returned-as-another-arc", 32: "prop:panic"}
+K6_PROP = 1 | 2 | 32
 KNOWN_PANIC = "theta not in elliptic arc range for splitting"   # recorded under C10/C13
 
 
@@ -61,7 +63,7 @@ def run(ctx):
     rows = vlib.coq_eval_shards("c05-%d" % ctx.seed, HEADER, [c["coq"] for c in cases], shard=ctx.n(80, 400))
     flagcount, classes = {}, {}
     prop_fail, tie_fail = [], []
-    nk1 = nk2 = nsub = nk3 = nk3pieces = nk4 = nk4pieces = nk5 = nk5cuts = 0
+    nk1 = nk2 = nsub = nk3 = nk3pieces = nk4 = nk4pieces = nk5 = nk5cuts = nk6 = 0
     nontrivial = set()
     distinct = set()
     for c, row in zip(cases, rows):
@@ -69,14 +71,19 @@ def run(ctx):
         k3 = c["desc"]["kind"] == "K3"
         k4 = c["desc"]["kind"] == "K4"
         k5 = c["desc"]["kind"] == "K5"
-        names, pm, tm = (K5_FLAGS, K5_PROP, 4) if k5 else (K1_FLAGS, K1_PROP, K1_TIE) if k1 else ((K3_FLAGS, K3_PROP, 0) if k3 else ((K4_FLAGS, K4_PROP, 1) if k4 else (K2_FLAGS, K2_PROP, K2_TIE)))
+        k6 = c["desc"]["kind"] == "K6"
+        names, pm, tm = (K6_FLAGS, K6_PROP, 0) if k6 else (K5_FLAGS, K5_PROP, 4) if k5 else (K1_FLAGS, K1_PROP, K1_TIE) if k1 else ((K3_FLAGS, K3_PROP, 0) if k3 else ((K4_FLAGS, K4_PROP, 1) if k4 else (K2_FLAGS, K2_PROP, K2_TIE)))
         key = json.dumps([c["desc"].get("path"), c["desc"]["offset"], c["desc"]["dashes"]])
         distinct.add(key)
         fl = 0
         for k in range(len(row) // 3):
             f, a, b = row[3 * k], row[3 * k + 1], row[3 * k + 2]
             fl |= f
-            if k5:
+            if k6:
+                nk6 += 1
+                if a >= 1:
+                    nontrivial.add(key)
+            elif k5:
                 nk5 += 1
                 nk5cuts += b
                 if b >= 1:
@@ -103,7 +110,7 @@ def run(ctx):
                     classes["k2-joined"] = classes.get("k2-joined", 0) + 1
         if k1:
             nk1 += 1
-        elif not k3 and not k4 and not k5:
+        elif not k3 and not k4 and not k5 and not k6:
             nk2 += 1
         for b, name in names.items():
             if fl & b:
